@@ -8,7 +8,7 @@ from ..model import AnalysisError, dotted, unparse, walk_no_nested
 from ..pathtab import Atoms, canon, evaluate
 from ..q import FuncView, arg, arg_text, callee_last, contains, ifexp_parts, kwargs, strip_await
 from . import c03, c07
-from .c04 import _ret_class
+from .c04 import _abort, _ret_class
 
 EXPLANATION = (
     "Envelope decided structurally: build_response's decision table (data always present, errors present iff the "
@@ -84,6 +84,7 @@ def check(ck):
         c03._never_raises(ck, repo)
         c07._nothing_runs(ck, repo)
         _operation_selection(ck, repo)
+        _abort(ck, repo)
     with ck.rule("R5"):
         cv = repo.func("tartiflette/types/exceptions/tartiflette.py", "TartifletteError.coerce_value")
         d = [n for n in walk_no_nested(cv.node) if isinstance(n, ast.Dict)]
